@@ -298,7 +298,7 @@ def run_cases_child(cases: list, info: dict, history_seed: int | None) -> list:
 
 
 def worker_task(task: dict) -> dict:
-    isolate.worker_guard(6000)
+    isolate.worker_guard()
     vseed = task["vseed"]
     cases = [] if runner.past(task.get("deadline")) else [gen_case(i, vseed, INFO) for i in task["indices"]]
     if not cases:
@@ -314,8 +314,11 @@ def worker_task(task: dict) -> dict:
         st["probes"][name] = st["probes"].get(name, 0) + n
 
     for case, a, b in zip(cases, first, after):
-        st["draws"] += 2
-        viol = a["violation"] or b["violation"]
+        st["draws"] += 4  # each case: twice in a pristine fork, twice after a call history
+        viol = a["violation"]
+        if viol is None and b["violation"] is not None:  # only the draw after the call history violates
+            viol = dict(b["violation"], history_seed=hseed)
+            viol["signature"] = dict(viol["signature"], leg="after-history")
         if viol is None and a["result"] != b["result"]:
             viol = {"kind": "not-reproducible", "signature": {"kind": "not-reproducible", "leg": "after-history", "api": case["api"]},
                     "case": case, "result": a["result"], "history_seed": hseed,
@@ -436,7 +439,8 @@ def evaluate_single(rec: dict) -> dict | None:
     if leg == "fresh-interpreter":
         hs = rec["violation"]["hashseed"]
         base = isolate.fork_call(run_cases_child, ([*before, case], INFO, None), timeout=300)[-1]
-        other = fresh_results([case], hs)[str(case["index"])]
+        fresh_before = [gen_case(i, rec["verif_seed"], INFO) for i in rec.get("fresh_prelude_indices", [])]
+        other = fresh_results([*fresh_before, case], hs)[str(case["index"])]
         if base["violation"] is None and other != base["result"][:3]:
             return dict(rec["violation"], detail=f"{case} gave {base['result'][:3]} here but {other} in a fresh interpreter under PYTHONHASHSEED={hs}")
         return base["violation"]
@@ -446,7 +450,9 @@ def evaluate_single(rec: dict) -> dict | None:
     if leg == "after-history" and rec.get("history_seed") is not None:
         b = isolate.fork_call(run_cases_child, ([*before, case], INFO, rec["history_seed"]), timeout=300)[-1]
         if b["violation"] is not None:
-            return b["violation"]
+            v = dict(b["violation"], history_seed=rec["history_seed"])
+            v["signature"] = dict(v["signature"], leg="after-history")
+            return v
         if b["result"] != a["result"]:
             return dict(rec["violation"], detail=f"{case} gave {a['result'][:3]} pristine but {b['result'][:3]} after history seed {rec['history_seed']}")
     return None
@@ -477,6 +483,10 @@ def minimise(rec: dict) -> dict:
             return True
         return False
 
+    if best.get("fresh_prelude_indices"):  # earlier draws in the fresh interpreter: usually irrelevant
+        c = json.loads(json.dumps(best))
+        c["fresh_prelude_indices"] = []
+        attempt(c)
     if best.get("prelude_indices"):  # earlier draws of the same process: none, else a shorter suffix
         c = json.loads(json.dumps(best))
         c["prelude_indices"] = []
@@ -608,6 +618,7 @@ def main() -> int:
                     violations.append({"property": PROP, "engine": core.ENGINE_VERSION, "verif_seed": vseed,
                                        "run_index": case["index"], "pythonhashseed": core.HASHSEED, "draw": case,
                                        "prelude_indices": list(range((case["index"] // 128) * 128, case["index"])),
+                                       "fresh_prelude_indices": [c["index"] for c in fresh_cases if c["index"] < case["index"]],
                                        "violation": {"kind": "not-reproducible", "hashseed": hs, "case": case,
                                                      "signature": {"kind": "not-reproducible", "leg": "fresh-interpreter", "api": case["api"]},
                                                      "detail": f"{case} gave {want} in the check process but {got} in a fresh interpreter under PYTHONHASHSEED={hs}"}})
@@ -641,7 +652,7 @@ def main() -> int:
                   "derivation": "sha256(f'{VERIF_SEED}:C13:{i}')[:16]"},
         "simulated_time": "n/a (library has no clock; time.* is tapped and must stay silent)",
         "faults_fired": {"adversarial_prng_stream_draws": probes.get("scripted_biased_prng_draws", 0),
-                         "entropy_taps_armed_draws": agg["draws"] // 2,
+                         "entropy_taps_armed_draws": agg["draws"] // 2,  # the first draw of each pair
                          "hash_seed_variation_draws": fresh_done,
                          "shuffled_registry_directory_listing_draws": fresh_done,
                          "warm_process_draws": agg["draws"] // 2},
@@ -661,7 +672,12 @@ def main() -> int:
         ])
     print(f"C13 {args.tier}: cases={ncases} draws={agg['draws']} fresh_draws={fresh_done} hashseeds={len(hashseeds)} "
           f"classes={len(classes)} outcomes={outcomes} violations_seen={agg['violation_count']} unlisted_classes={unlisted} wall={wall:.1f}s")
-    return core.EXIT_VIOLATION if unlisted else core.EXIT_OK
+    if unlisted:
+        return core.EXIT_VIOLATION
+    if probes.get("tasks_cut_short_by_wall_clock_cap"):
+        raise core.HarnessError("incomplete exploration: the wall-clock safety cap cut tasks short; a truncated run is "
+                                "never reported as a pass (raise VERIF_WALL_CAP or lower --runs)")
+    return core.EXIT_OK
 
 
 if __name__ == "__main__":
